@@ -785,3 +785,25 @@ Proof.
   intros Hin Ha Hu. apply (consumer_depends_on_underlying d name t u Hin).
   left. exists (AOpaque ts v). split; [exact Ha | apply occ_opaque; exact Hu].
 Qed.
+
+(* ---- a consumer's outcome is a function of ITS OWN argument terms ---------------------------------------- *)
+(* the identifier plays no part: two task objects with the same function and the same argument terms do
+   the same thing in every store (so sharing one stored result between them is sound) ... *)
+Theorem task_run_own_arguments kinds st t1 t2 :
+  t_fn t1 = t_fn t2 -> t_args t1 = t_args t2 -> t_kwargs t1 = t_kwargs t2 ->
+  task_run kinds st t1 = task_run kinds st t2.
+Proof. intros Hf Ha Hk. unfold task_run, task_inputs. rewrite Hf, Ha, Hk. reflexivity. Qed.
+
+(* ... and conversely, for a free function (its result records what it received): two consumers may share
+   a result only if their arguments resolve to the same values - consumers of views with different values
+   need results of their own *)
+Theorem task_run_shared_result kinds st t1 t2 v :
+  t_fn t1 = t_fn t2 -> kinds (t_fn t1) = FkApp ->
+  task_run kinds st t1 = FRet v -> task_run kinds st t2 = FRet v ->
+  task_inputs st t1 = task_inputs st t2.
+Proof.
+  intros Hf Hk. unfold task_run. rewrite <- Hf, Hk.
+  destruct (task_inputs st t1) as [[a1 k1]| |]; try discriminate.
+  destruct (task_inputs st t2) as [[a2 k2]| |]; try discriminate.
+  cbn. intros [= <-] [= E1 E2]. subst. reflexivity.
+Qed.
